@@ -1,0 +1,74 @@
+//! Verification hooks (visibility shims only; compiled with `--cfg gmsol_verif`).
+use anchor_lang::prelude::*;
+
+use crate::{
+    events::EventEmitter,
+    states::{
+        gt::{GtExchange, GtExchangeVault, GtState},
+        market::revertible::RevertibleMarket,
+        Market, Store, UserHeader,
+    },
+};
+
+/// Access the GT state of a store mutably.
+pub fn gt_mut(store: &mut Store) -> &mut GtState {
+    store.gt_mut()
+}
+
+/// See `GtState::init`.
+pub fn gt_init(gt: &mut GtState, decimals: u8, initial_minting_cost: u128, grow_factor: u128, grow_step: u64, ranks: &[u64]) -> Result<()> {
+    gt.init(decimals, initial_minting_cost, grow_factor, grow_step, ranks)
+}
+
+/// See `GtState::mint_to`.
+pub fn gt_mint_to(gt: &mut GtState, user: &mut UserHeader, amount: u64) -> Result<()> {
+    gt.mint_to(user, amount)
+}
+
+/// See `GtState::unchecked_burn_from`.
+pub fn gt_burn_from(gt: &mut GtState, user: &mut UserHeader, amount: u64) -> Result<()> {
+    gt.unchecked_burn_from(user, amount)
+}
+
+/// See `GtState::get_mint_amount`.
+pub fn gt_get_mint_amount(gt: &GtState, size_in_value: u128) -> Result<(u64, u128, u128)> {
+    gt.get_mint_amount(size_in_value)
+}
+
+/// See `GtState::set_order_fee_discount_factors`.
+pub fn gt_set_order_fee_discount_factors(gt: &mut GtState, factors: &[u128]) -> Result<()> {
+    gt.set_order_fee_discount_factors(factors)
+}
+
+/// See `GtState::unchecked_request_exchange`.
+pub fn gt_request_exchange(gt: &mut GtState, user: &mut UserHeader, vault: &mut GtExchangeVault, exchange: &mut GtExchange, amount: u64) -> Result<()> {
+    gt.unchecked_request_exchange(user, vault, exchange, amount)
+}
+
+/// See `UserHeader::init`.
+pub fn user_init(user: &mut UserHeader, store: &Pubkey, owner: &Pubkey, bump: u8) -> Result<()> {
+    user.init(store, owner, bump)
+}
+
+/// See `RevertibleMarket::new`.
+pub fn revertible_market<'a, 'info>(
+    market: &'a AccountLoader<'info, Market>,
+    event_authority: &'a AccountInfo<'info>,
+    bump: u8,
+) -> Result<RevertibleMarket<'a, 'info>> {
+    RevertibleMarket::new(market, None, EventEmitter::new(event_authority, bump))
+}
+
+/// See `TokenConfigExt::update`.
+pub fn token_config_update(
+    config: &mut crate::states::TokenConfig,
+    name: &str,
+    synthetic: bool,
+    token_decimals: u8,
+    builder: crate::states::UpdateTokenConfigParams,
+    enable: bool,
+    init: bool,
+) -> Result<()> {
+    use crate::states::token_config::TokenConfigExt;
+    config.update(name, synthetic, token_decimals, builder, enable, init)
+}
